@@ -36,7 +36,8 @@
 (***************************************************************************)
 EXTENDS MarkupOps, Json
 
-CONSTANTS MaxNodes, Strings, Kinds, DevChoices, Convs, Modes
+CONSTANTS MaxNodes, Strings, Kinds, DevChoices, Convs, Modes,
+          ParseOutput     \* TRUE: the finished output is read back by ParseML (exhaustive runs); FALSE: trace validation
 
 VARIABLES T, hs, phase, conv, mode, dev, i, stack, chars, font, fstack, npages, w, px
 vars == <<T, hs, phase, conv, mode, dev, i, stack, chars, font, fstack, npages, w, px>>
@@ -78,7 +79,7 @@ HtmlHeader == <<cLT, hHTML, cGT, cLT, hHEAD, cGT, cLF>>
               \o EndTag(hHEAD) \o <<cLT, hBODY, cGT, cLF>>
 RECURSIVE PageLinks(_, _)
 PageLinks(n, q) == IF q > n THEN <<>>
-                   ELSE (IF q > 1 THEN <<gCOMMA>> ELSE <<>>) \o OpenTag(hA, QAttr(bHREF, <<gHASHMARK, 400 + q>>)) \o <<400 + q>> \o EndTag(hA)
+                   ELSE (IF q > 1 THEN <<gCOMMA>> ELSE <<>>) \o OpenTag(hA, QAttr(bHREF, <<gHASHMARK, 1900000 + q>>)) \o <<1900000 + q>> \o EndTag(hA)
                         \o PageLinks(n, q + 1)
 HtmlFooter(n) == OpenTag(hDIV, QAttr(bSTYLE, HNum(0, hTOP))) \o <<gPAGES>> \o PageLinks(n, 1) \o EndTag(hDIV) \o <<cLF>>
                  \o EndTag(hBODY) \o EndTag(hHTML) \o <<cLF>>
@@ -192,7 +193,7 @@ AExit == /\ phase = "run" /\ ~Descend /\ stack # <<>>
          /\ UNCHANGED <<T, hs, phase, conv, mode, dev, i, px>>
 AClose == /\ phase = "run" /\ ~Descend /\ stack = <<>>
           /\ LET foot == IF conv = "html" THEN HtmlFooter(npages) ELSE HocrFooter IN
-             Write(foot) /\ px' = ParseML(chars \o foot)
+             Write(foot) /\ px' = IF ParseOutput THEN ParseML(chars \o foot) ELSE P0
           /\ phase' = "done"
           /\ UNCHANGED <<T, hs, conv, mode, dev, i, stack, font, fstack, npages, w>>
 
